@@ -19,6 +19,7 @@ def describe(tier):
              parse_inner='all combinations', lifecycle='after __exit__ the text parses to one RawText and both token lists are the defaults')
     if tier == 'quick':
         d['triples'] = 'grid 0..4, parse group whole/inner, precedence {4,6}^3, parse_inner^3'
+        d['four_tokens'] = 'an enclosing token over the whole grid 0..4 (parses its inner text) around every triple as above'
     if tier == 'thorough':
         d['triples'] = 'grid 0..5, parse group whole/inner, precedence {4,5,6}^3, parse_inner^3'
         d['quadruples'] = 'grid 0..4, parse group whole/inner, precedence {4,6}^4, parse_inner^4'
@@ -45,6 +46,8 @@ def jobs(tier):
     if tier == 'quick':
         iv4 = intervals(4)
         js += [('triples4', a, b) for a in range(len(iv4)) for b in range(len(iv4))]
+        # four tokens: one enclosing token (whole text of the grid, parses its inner text) and every triple inside it
+        js += [('inP', a, b) for a in range(len(iv4)) for b in range(len(iv4))]
     if tier == 'thorough':
         iv = intervals(5)
         js += [('triples', a, b) for a in range(len(iv)) for b in range(len(iv))]
@@ -262,6 +265,17 @@ def run_job(job):
                                                dict(name='Y', iv=yi, pg=yp, prec=py, inner=iy)], True)
         r.sample(dict(tokens=[dict(name='X', interval=list(xi), parse_group=list(pgs(xi)[-1]), precedence=5, parse_inner=True),
                               dict(name='Y', interval=[2, 6], parse_group=[3, 5], precedence=6, parse_inner=False)]), 1)
+    elif kind == 'inP':
+        ivs = intervals(4)
+        a, b = ivs[job[1]], ivs[job[2]]
+        P = dict(name='W', iv=(0, 4), pg=(0, 4), prec=5, inner=True)
+        for c in ivs:
+            chosen = (a, b, c)
+            for pg in itertools.product(*[pgs(iv, full=False) for iv in chosen]):
+                for pr in itertools.product((4, 6), repeat=3):
+                    for inn in itertools.product((True, False), repeat=3):
+                        run_config(r, [P] + [dict(name='XYZ'[i], iv=chosen[i], pg=pg[i], prec=pr[i], inner=inn[i]) for i in range(3)], False)
+        r.sample(dict(kind='three tokens inside an enclosing one', first_two_intervals=[list(a), list(b)]), 1)
     else:
         hi = 5 if kind == 'triples' else 4
         ivs = intervals(hi)
